@@ -163,7 +163,7 @@ Lemma loop_pass_nonvacuous :
   exists f' fl,
     wf_func f_all = true /\ loop_pass sup0 f_all = Some (f', fl) /\
     f_licm fl = 1%N /\ f_extract fl = 1%N /\ f_sr fl = 1%N /\ f' <> f_all /\
-    classes_func f_all = [0; 0; 0; 0; 0; 0; 0]%N /\
+    classes_func f_all = [0; 0; 0; 0; 0; 0; 0; 1]%N /\
     sem All ww f_all [14] 20 = sem Wrap ww f' [14] 20 /\
     sem All ww f_all [14] 20 = Done 147 [(0%N, [10; 98]); (0%N, [5; 98]); (0%N, [0; 98])].
 Proof.
